@@ -69,7 +69,9 @@ def Scn.parseRan (s : Scn) : Bool := !(s.sameInOut || !s.gdlOpens || !s.encoding
 def parseOps (s : Scn) : List Op :=
   if s.parseRan then
     (if s.tmpOk then [Op.createTmp, Op.execPP] ++ (if s.ppOk then [Op.readTmp] else []) ++
-      (if s.ppOk && s.parseOk && s.dbgFiles then [Op.writeDebugFiles] else []) ++ [Op.unlinkTmp] else [])
+      -- (the input font is opened inside the parse stage: with an unreadable font the parse "fails" too and its debug
+      -- listing is not written)
+      (if s.ppOk && s.parseOk && s.fontOk && s.dbgFiles then [Op.writeDebugFiles] else []) ++ [Op.unlinkTmp] else [])
   else []
 
 def outOps (s : Scn) : List Op :=
@@ -116,7 +118,7 @@ theorem mem_ops (s : Scn) (o : Op) : o ∈ (run s).ops ↔
 
 theorem out_not_in_parse (s : Scn) : Op.truncOut ∉ parseOps s ∧ Op.removeOut ∉ parseOps s ∧ Op.writeOut ∉ parseOps s := by
   unfold parseOps
-  cases s.parseRan <;> cases s.tmpOk <;> cases s.ppOk <;> cases s.parseOk <;> cases s.dbgFiles <;> simp
+  cases s.parseRan <;> cases s.tmpOk <;> cases s.ppOk <;> cases s.parseOk <;> cases s.fontOk <;> cases s.dbgFiles <;> simp
 
 /-- Success: the destination was created by this run, written completely, and not removed. -/
 theorem success_font_complete (s : Scn) (h : (run s).exit = 0) :
@@ -232,7 +234,7 @@ theorem tmp_removed (s : Scn) (h : Op.createTmp ∈ (run s).ops) : Op.unlinkTmp 
   · cases h
   · right; right; left
     unfold parseOps at h ⊢
-    cases hr : s.parseRan <;> cases ht : s.tmpOk <;> cases hpp : s.ppOk <;> cases hk : s.parseOk <;> cases hd : s.dbgFiles <;> simp_all
+    cases hr : s.parseRan <;> cases ht : s.tmpOk <;> cases hpp : s.ppOk <;> cases hk : s.parseOk <;> cases hfo : s.fontOk <;> cases hd : s.dbgFiles <;> simp_all
   · exfalso
     unfold outOps at h
     cases hp : s.preFail <;> cases hx : s.dbgXml <;> cases ho : s.outOpens <;> cases hw : s.outWrites <;> simp_all
@@ -246,7 +248,7 @@ theorem debug_only_if_requested (s : Scn) :
     | (exact absurd h.2 (by decide))
     | cases h
     | (unfold parseOps at h
-       cases hr : s.parseRan <;> cases ht : s.tmpOk <;> cases hpp : s.ppOk <;> cases hk : s.parseOk <;> cases hd : s.dbgFiles <;> simp_all)
+       cases hr : s.parseRan <;> cases ht : s.tmpOk <;> cases hpp : s.ppOk <;> cases hk : s.parseOk <;> cases hfo : s.fontOk <;> cases hd : s.dbgFiles <;> simp_all)
     | (unfold outOps at h
        cases hp : s.preFail <;> cases hx : s.dbgXml <;> cases ho : s.outOpens <;> cases hw : s.outWrites <;> simp_all)
 
